@@ -139,14 +139,29 @@ def mk_feature(name: str, parent: Optional[AObj] = None, **extra: Any) -> AObj:
     return f
 
 
+PM: list[Any] = []                                        # the program model, when a check wants constructors evaluated
+
+
 def mk_relation(d: D, parent: Optional[AObj], log: Log, prefix: str = "c",
                 children: Optional[list[AObj]] = None) -> AObj:
     if children is None:
         children = [mk_feature(f"{prefix}{i}", parent) for i in range(d.n)]
-    r = AObj("Relation", parent=parent,
-             children=tagged(children, "n", log.consts),
-             card_min=OrdInt(d.min, "min", log.consts),
-             card_max=OrdInt(d.max, "max", log.consts))
+    r = None
+    if PM:
+        # the class's own constructor, evaluated from source: whatever else it sets up (a memo field, a counter) is there
+        from .absint import AbsMutation, AbsRaise, Interp
+        from .core import AnalysisError
+        try:
+            r = Interp(PM[0]).eval_call_class(PM[0].cls("Relation"), [parent, list(children), d.min, d.max])
+            for c in children:
+                c._f["parent"] = parent
+        except (AbsRaise, AbsMutation, AnalysisError, KeyError):
+            r = None
+    if r is None:
+        r = AObj("Relation")
+    r._f.update(parent=parent, children=tagged(children, "n", log.consts),
+                card_min=OrdInt(d.min, "min", log.consts), card_max=OrdInt(d.max, "max", log.consts))
+    r._f.pop("_complete", None)
     return r
 
 
